@@ -1157,6 +1157,48 @@ RS.rules.append(Rule('C11.R12', 'K-ORDER+K-RES', 'no disposition is changed (and
 RS.explanation += ' No disposition is changed between block_sigint_sigquit and restore_sigmask (R12 = C08.R13).'
 
 
+def _cond_key(c):
+    o, lab, e = c
+    return (json.dumps(o.get('pl'), sort_keys=True) if o['k'] != 'call' else id(o['t']), lab, e)
+
+
+def _all_conds(F, body, du, blk, _depth=0):
+    """Conditions that hold in block blk: Q.implied_conditions (materialised `&&` / `||`, copies of an inlined helper's result),
+    C08.conds, and the resolution of a tested bool local that is only ever assigned constants (`let f = matches!(..); .. if f`,
+    also when the test reads a copy of the flag): what holds in every block that assigns the selected constant."""
+    out = list(Q.implied_conditions(F, body, du, blk))
+    seen = {_cond_key(c) for c in out}
+    for c in conds(F, body, du, blk):
+        if _cond_key(c) not in seen:
+            seen.add(_cond_key(c))
+            out.append(c)
+    if _depth < 3:
+        for o, lab, e in list(out):
+            if lab[0] != 'bool' or o['k'] != 'place' or o['pl'].get('p'):
+                continue
+            defs = du.defs.get(o['pl']['l'], [])
+            vals = [(b, _const_bool_of(node)) for b, j, node in defs if j != 't']
+            if len(defs) < 2 or len(vals) != len(defs) or any(v is None for _, v in vals):
+                continue
+            common = None
+            for b, v in vals:
+                if v != lab[1]:
+                    continue
+                cs = {_cond_key(c): c for c in _all_conds(F, body, du, b, _depth + 1)}
+                common = cs if common is None else {k: c for k, c in common.items() if k in cs}
+            for k, c in (common or {}).items():
+                if k not in seen:
+                    seen.add(k)
+                    out.append(c)
+    return out
+
+
+def _const_bool_of(node):
+    if node.get('k') == 'assign' and node['rv']['k'] == 'use' and node['rv']['o'].get('c') in ('true', 'false'):
+        return node['rv']['o']['c'] == 'true'
+    return None
+
+
 # ----------------------------------------------------------------- R13
 # added for seed C11-s7 (run_traps_for_caught_signals drained every pending flag into a Vec before running any action)
 TAKES = ['yash_env::trap::TrapSet::take_caught_signal', 'yash_env::trap::TrapSet::take_signal_if_caught']
@@ -1210,7 +1252,7 @@ def _take_then_run(cx, F, body, fn):
         # (decided by a variant test on the taken state's action; through `matches!` / `&&` flags via implied_conditions)
         no_command = set()
         for u in sorted(body.live_blocks()):
-            for org, lab, e in Q.implied_conditions(F, body, du, u):
+            for org, lab, e in _all_conds(F, body, du, u):
                 if org['k'] != 'discr' or org['pl']['l'] not in taint or not re.search(r'trap::(\w+::)?Action\b', org.get('ty') or ''):
                     continue
                 ec = Q.edge_condition(F, body, du, e[0]) if e[0] != e[1] else None
@@ -1380,7 +1422,7 @@ def _contradicting_edges(F, body, du, new_places, variant, variants):
                 if contradicts([(ec[0], lab, (u, tgt)) for lab in labs]):
                     out.add((u, tgt))
     for s in live:
-        if s != 0 and contradicts(Q.implied_conditions(F, body, du, s)):
+        if s != 0 and contradicts(_all_conds(F, body, du, s)):
             for u in body.pred(s):
                 out.add((u, s))
     return out
